@@ -1118,32 +1118,21 @@ func (p *Printer) stmt(s *Stmt) {
 	if s.Negated {
 		p.spacedString("!", s.Pos())
 	}
+	redirs := s.Redirs
+	if _, ok := s.Cmd.(*FuncDecl); ok && len(redirs) > 0 {
+		// Any redirections following a function declaration belong to its body,
+		// so these came before it, which Zsh allows; keep them there.
+		p.incLevel()
+		p.stmtRedirs(redirs)
+		p.decLevel()
+		redirs = nil
+	}
 	var startRedirs int
 	if s.Cmd != nil {
-		startRedirs = p.command(s.Cmd, s.Redirs)
+		startRedirs = p.command(s.Cmd, redirs)
 	}
 	p.incLevel()
-	for _, r := range s.Redirs[startRedirs:] {
-		if p.wantsNewline(r.OpPos, true) {
-			p.bslashNewl()
-		}
-		if p.wantSpace == spaceRequired {
-			p.spacePad(r.Pos())
-		}
-		if r.N != nil {
-			p.writeLit(r.N.Value)
-		}
-		p.w.WriteString(r.Op.String())
-		if p.spaceRedirects && (r.Op != DplIn && r.Op != DplOut) {
-			p.space()
-		} else {
-			p.wantSpace = spaceRequired
-		}
-		p.word(r.Word)
-		if r.Op == Hdoc || r.Op == DashHdoc {
-			p.pendingHdocs = append(p.pendingHdocs, r)
-		}
-	}
+	p.stmtRedirs(redirs[startRedirs:])
 	// Any semicolon or ampersand written so far belongs to a statement nested
 	// inside this one, such as in a block or a command substitution,
 	// and does not terminate this statement.
@@ -1168,6 +1157,30 @@ func (p *Printer) stmt(s *Stmt) {
 		p.wantSpace = spaceRequired
 	}
 	p.decLevel()
+}
+
+func (p *Printer) stmtRedirs(redirs []*Redirect) {
+	for _, r := range redirs {
+		if p.wantsNewline(r.OpPos, true) {
+			p.bslashNewl()
+		}
+		if p.wantSpace == spaceRequired {
+			p.spacePad(r.Pos())
+		}
+		if r.N != nil {
+			p.writeLit(r.N.Value)
+		}
+		p.w.WriteString(r.Op.String())
+		if p.spaceRedirects && (r.Op != DplIn && r.Op != DplOut) {
+			p.space()
+		} else {
+			p.wantSpace = spaceRequired
+		}
+		p.word(r.Word)
+		if r.Op == Hdoc || r.Op == DashHdoc {
+			p.pendingHdocs = append(p.pendingHdocs, r)
+		}
+	}
 }
 
 func (p *Printer) printRedirsUntil(redirs []*Redirect, startRedirs int, pos Pos) int {
